@@ -49,7 +49,12 @@ func (t *Token) ToSealedWriter(w io.Writer, privKey crypto.PrivKey) (cid.Cid, er
 // key taken from the issuer (iss) field and calculates the CID of the
 // incoming data.
 func FromSealed(data []byte) (*Token, cid.Cid, error) {
-	tkn, err := FromDagCbor(data)
+	node, err := envelope.DecodeSealed(data)
+	if err != nil {
+		return nil, cid.Undef, err
+	}
+
+	tkn, err := FromIPLD(node)
 	if err != nil {
 		return nil, cid.Undef, err
 	}
@@ -66,7 +71,12 @@ func FromSealed(data []byte) (*Token, cid.Cid, error) {
 func FromSealedReader(r io.Reader) (*Token, cid.Cid, error) {
 	cidReader := envelope.NewCIDReader(r)
 
-	tkn, err := FromDagCborReader(cidReader)
+	node, err := envelope.DecodeSealedReader(cidReader)
+	if err != nil {
+		return nil, cid.Undef, err
+	}
+
+	tkn, err := FromIPLD(node)
 	if err != nil {
 		return nil, cid.Undef, err
 	}
